@@ -387,4 +387,80 @@ theorem value_nest_oof (n : Nat) : ∀ (f : Nat) (c : Ctx) (p : Nat) (rest : Lis
 
 end Descent
 
+
+-- ------------------------------------------------------------------ order of the pre-execution checks
+
+theorem sumOpt_ne_none (l : List (Option Nat)) (h : ∀ x ∈ l, x ≠ none) : sumOpt l ≠ none := by
+  induction l with
+  | nil => simp [sumOpt]
+  | cons a l ih =>
+    cases a with
+    | none => exact absurd rfl (h none (by simp))
+    | some a =>
+      have := ih (fun x hx => h x (by simp [hx]))
+      cases hs : sumOpt l with
+      | none => exact absurd hs this
+      | some v => simp [sumOpt, hs]
+
+theorem sumOpt_some_all (l : List (Option Nat)) (v : Nat) (h : sumOpt l = some v) : ∀ x ∈ l, x ≠ none := by
+  induction l generalizing v with
+  | nil => simp
+  | cons a l ih =>
+    cases a with
+    | none => simp [sumOpt] at h
+    | some a =>
+      cases hs : sumOpt l with
+      | none => simp [sumOpt, hs] at h
+      | some w =>
+        intro x hx
+        rcases List.mem_cons.1 hx with rfl | hx
+        · simp
+        · exact ih w hs x hx
+
+/-- wherever the depth check passes, the (unbounded) directives walk comes back within the same stack -/
+theorem dirWalk_of_spreadVisits (frags : Spreads) (max : Nat) :
+    ∀ (fuel d i v : Nat), spreadVisits frags max fuel d i = some v → dirWalk frags fuel i ≠ none := by
+  intro fuel
+  induction fuel with
+  | zero => intro d i v h; simp [spreadVisits] at h
+  | succ fuel ih =>
+    intro d i v h
+    rw [spreadVisits] at h
+    split at h
+    · cases h
+    · rw [dirWalk]
+      cases hs : sumOpt ((frags.getD i []).map (fun j => spreadVisits frags max fuel (d + 1) j)) with
+      | none => rw [hs] at h; simp at h
+      | some w =>
+        have hall := sumOpt_some_all _ w hs
+        have : sumOpt ((frags.getD i []).map (fun j => dirWalk frags fuel j)) ≠ none := by
+          apply sumOpt_ne_none
+          intro x hx
+          obtain ⟨j, hj, rfl⟩ := List.mem_map.1 hx
+          have hj' : spreadVisits frags max fuel (d + 1) j ≠ none := hall _ (List.mem_map.2 ⟨j, hj, rfl⟩)
+          cases hv : spreadVisits frags max fuel (d + 1) j with
+          | none => exact absurd hv hj'
+          | some u => exact ih (d + 1) j u hv
+        cases hd : sumOpt ((frags.getD i []).map (fun j => dirWalk frags fuel j)) with
+        | none => exact absurd hd this
+        | some u => simp
+
+theorem runChecks_source_order (frags : Spreads) (max : Nat) (maxDirs : Option Nat) (stack root : Nat) :
+    runChecks frags max maxDirs stack root AGV.Gen.LimitFacts.checkOrder ≠ .overflow := by
+  cases hv : spreadVisits frags max stack 0 root with
+  | none => simp [AGV.Gen.LimitFacts.checkOrder, runChecks, hv]
+  | some v =>
+    have hd := dirWalk_of_spreadVisits frags max stack 0 root v hv
+    cases maxDirs with
+    | none => simp [AGV.Gen.LimitFacts.checkOrder, runChecks, hv]
+    | some m =>
+      cases hw : dirWalk frags stack root with
+      | none => exact absurd hw hd
+      | some u => simp [AGV.Gen.LimitFacts.checkOrder, runChecks, hv, hw]
+
+theorem dirWalk_self_cycle (stack : Nat) : dirWalk [[0]] stack 0 = none := by
+  induction stack with
+  | zero => simp [dirWalk]
+  | succ n ih => rw [dirWalk]; simp [sumOpt, ih]
+
 end AGV.Lemmas.Hostile
